@@ -170,6 +170,9 @@ def run_shard(spec, acc):
         sa_, sb_ = rng.sample(sources, 2)
         claims[sa_] = claims[sa_] + [hist.claim_name(box_u, box_m, inst_lo=0, function=130, dev_class=25)]
         claims[sb_] = claims[sb_] + [hist.claim_name(box_u, box_m, inst_lo=1, inst_hi=3, function=150, dev_class=75)]
+        # NAMEs of every kind: sub-fields at their 'not available' codes, random bits
+        for sx in sources:
+            claims[sx] = claims[sx] + [hist.pick_name(rng, MFRS)]
         unclaimed = rng.choice(sources) if rng.random() < 0.5 else None
         if unclaimed:
             claims[unclaimed] = []
@@ -181,6 +184,7 @@ def run_shard(spec, acc):
         msg_state = {}
         returned_with_identity = withheld = changed = 0
         bad = None
+        handed_out = []               # (position, message, identity it was returned with)
         for pos, ev in enumerate(events):
             kind, r = hist.safe_feed_any(dec, ev, rng) if c % 2 else hist.safe_feed(dec, ev)
             if kind == "exc":
@@ -204,6 +208,7 @@ def run_shard(spec, acc):
                     bad = (pos, "claim-identity-wrong", (project.iso_proj(r.source_iso_name), ref_identity(dbx, name)))
                     break
                 acc.count("identities_compared")
+                handed_out.append((pos, r, ref_identity(dbx, name)))
                 continue
             # data frame: per-frame withholding status
             name = ident.get(ev.src)
@@ -279,8 +284,17 @@ def run_shard(spec, acc):
                 bad = (pos, why, (got, want))
                 break
             acc.count("identities_compared")
+            handed_out.append((pos, r, want))
             if want is not None:
                 returned_with_identity += 1
+        # a message carries the identity its source had when it was returned - also when it is looked at later (it may still be
+        # waiting in a queue): later claims and re-claims of the address do not rewrite it
+        if bad is None:
+            for pos_, r_, want_ in handed_out:
+                acc.count("identities_re_read_at_the_end")
+                if project.iso_proj(r_.source_iso_name) != want_:
+                    bad = (pos_, "identity-of-returned-message-changed-later", (project.iso_proj(r_.source_iso_name), want_))
+                    break
         acc.case((repr(kwargs), tuple(tuple(e.brief()) for e in events)) if (returned_with_identity and (withheld or changed)) else None)
         acc.cover("configs", f"mapping={mapping}/{mode}/claim_filtered={claim_filtered}")
         if bad:
